@@ -137,3 +137,43 @@ func VerifHarness_C13_PairedAction() {
 		verifReach("nonempty")
 	}
 }
+
+// long queries that are cut to the term cap: boosts still never add or remove a candidate
+func VerifHarness_C13_PairedLongQuery() {
+	mk := func(cmd, desc string) Command {
+		c := Command{Command: cmd, Description: desc}
+		vFill(&c)
+		return c
+	}
+	db := &Database{Commands: []Command{
+		mk("aa", "bb cc"), mk("dd", "ee ff"), mk("gg", "hh"), mk("hh ii", "gg hh"), mk("hh", "jj"), mk("kk", "hh"),
+	}}
+	db.BuildUniversalIndex()
+	db.buildTFIDFSearcher()
+	q := "aa bb cc dd ee ff gg hh"
+	word := []string{"hh", "gg", "ff", "aa"}[verifIntRange("word", 0, 3)]
+	base := SearchOptions{Limit: 9, AllPlatforms: true, TopTermsCap: verifIntRange("termsCap", 4, 7), UseNLP: verifBool("nlp")}
+	with := base
+	with.ContextBoosts = map[string]float64{word: []float64{1, 1.5, 3}[verifIntRange("factor", 0, 2)]}
+	r0 := db.SearchUniversal(q, base)
+	r1 := db.SearchUniversal(q, with)
+	verifAssert(len(r0) == len(r1), "C13: context boosts never add or remove a candidate")
+	for _, a := range r0 {
+		found := false
+		for _, b := range r1 {
+			if a.Command == b.Command {
+				found = true
+				if c13Contains(a.Command, word) {
+					verifAssert(b.Score >= a.Score, "C13: boosting a word never lowers the score of a command containing it")
+				} else {
+					verifAssert(c03SameFloat(a.Score, b.Score), "C13: boosting a word never changes the score of a command that does not contain it")
+				}
+			}
+		}
+		verifAssert(found, "C13: context boosts never add or remove a candidate")
+	}
+	verifReach("paired")
+	if len(r0) > 0 {
+		verifReach("nonempty")
+	}
+}
